@@ -40,6 +40,49 @@ def run(repo, chk):
     rule_a_c_d(repo, chk, w)
     rule_b(chk, t)
     rule_e(repo, chk)
+    rule_f(repo, chk)
+
+
+def rule_f(repo, chk):
+    """The done notification the waiters rely on."""
+    chk.rule('C06.f', '<name>_done is fired exactly when the awaited event has no suspended handler left and a waiter asked for it; '
+                      'the request flag is shared by all waiters and only ever set')
+    e = repo.func(MANAGER, 'Manager._eventDone')
+    chk.touch(e)
+    g = e.cfg()
+    ev = e.params[1]
+    done = [n for n in g.nodes if n.kind == 'stmt' and pat.fires(n.ast, 'child:done')]
+    need(done, 'C06.f: _eventDone never fires <name>_done')
+    gate = pat.test_edge(lambda tt, pol: (pol == 'F' and src(tt) == f'{ev}.waitingHandlers') or
+                         pat.fact_matches(pat.compare_fact(tt, pol), f'{ev}.waitingHandlers', ('==', '<='), '0'))
+    for n in done:
+        q = pat.guarded_by(g, n, gate)
+        chk.ob('f', e.ref, '<name>_done is fired only when no handler of the event is still suspended (whether or not a handler failed)', q is None,
+               loc(e, n.ast), path=pat.path_lines(q) if q else None, discr='done-after-all-handlers')
+        c = pat.fires(n.ast, 'child:done')[0]
+        chk.ob('f', e.ref, '<name>_done goes to the channels of the finished event', [src(a) for a in c.args[1:]] == [f'*{ev}.channels'], loc(e, c),
+               discr='done-channels')
+    reqs = [e2 for n in g.nodes if n.kind == 'test' and src(n.ast) == f'{ev}.alert_done' for e2 in n.succ if e2.kind == 'T']
+    ok = bool(reqs) and all(e2.dst in done or Q.escapes(g, [e2.dst], lambda n: n in done) is None for e2 in reqs)
+    chk.ob('f', e.ref, 'when a waiter asked for it and no handler is suspended, <name>_done is fired on every path', ok, loc(e, e.node), discr='done-when-requested')
+    chk.ob('f', e.ref, '<name>_done is fired from exactly one site', len(done) == 1, loc(e, e.node), discr='done-once')
+    # who-may-write alert_done
+    bad = []
+    n_sets = 0
+    for f in repo.all_functions():
+        for n in walk_no_defs(f.node):
+            if isinstance(n, (ast.Assign, ast.AugAssign)):
+                for recv, attr, val in pat.attr_store(n):
+                    if attr == 'alert_done':
+                        n_sets += 1
+                        if not pat.is_const(val, True):
+                            bad.append((f, n))
+            if isinstance(n, ast.Call) and call_name(n) in ('delattr', 'setattr') and len(n.args) >= 2 and pat.is_const(n.args[1], 'alert_done'):
+                bad.append((f, n))
+            if isinstance(n, ast.Delete) and any(isinstance(t, ast.Attribute) and t.attr == 'alert_done' for t in n.targets):
+                bad.append((f, n))
+    chk.ob('f', f'{MANAGER}::alert_done', 'the done-request flag of an event is only ever set to True (it is shared by all handlers waiting for that event)',
+           not bad and n_sets >= 1, bad[0][0].loc(bad[0][1]) if bad else MANAGER, detail='; '.join(f'{f.ref}: `{src(n)}`' for f, n in bad[:3]), discr='alert-done-only-set')
 
 
 def _removes(node, handler_var_pred):
